@@ -15,7 +15,9 @@ RULE = (
     "case = (circle frame: axis in general position x centre x radius); inside, every sector angle of the lattice "
     "+-{0.05,0.3,1,pi/2,2,3,pi-1e-3,pi+1e-3,3.5,4.5,6,2pi-0.05} for angle-and-axis arcs, every angle in (0,pi) for origin "
     "arcs, every (included angle, fraction of the middle point) for three-point arc lengths, evaluated on the real edge "
-    "classes and compared with the analytic circle; plus the chord bound for every edge kind. non-trivial = distinct "
+    "classes and compared with the analytic circle; every history of <= 3 steps {move the second vertex, translate, rotate "
+    "the edge} on one origin/angle edge object (evaluated or not before the first step), re-compared after every step; "
+    "plus the chord bound for every edge kind. non-trivial = distinct "
     "(frame, centre, radius, angle[, fraction]) point"
 )
 ASSUMPTIONS = ["lattice, not continuum", "angle-and-axis arcs follow the right-hand rule from the first to the second vertex"]
@@ -137,6 +139,75 @@ def run_case(case):
                 violations.append({"clause": "three-point-length", "coords": coords(theta=th, fraction=round(phi, 2)), "detail": f"length {length}, R*theta = {R * th}"})
             if length < np.linalg.norm(B - A) * (1 - 1e-9):
                 violations.append({"clause": "length-below-chord", "coords": coords(theta=th, fraction=round(phi, 2), kind="arc"), "detail": f"{length} < {np.linalg.norm(B - A)}"})
+    # 4. histories on ONE edge object: the arc must follow its end points and its data. After every step of every
+    #    sequence of <= 3 steps from {M: slide/stretch the second vertex, T: translate the edge, R: rotate the edge}
+    #    (with and without an evaluation before the first step) the middle point, the length and the written line are
+    #    compared with the analytic circle of the current state.
+    import itertools
+    import re
+
+    d_vec = R * np.array([0.7, -1.9, 0.4])
+    r_axis = np.array([0.3, 1.0, -0.5]) / np.linalg.norm([0.3, 1.0, -0.5])
+    r_org = c + R * np.array([0.5, 0.2, -0.3])
+    r_ang = 0.8
+    seqs = [q for k in (1, 2, 3) for q in itertools.product("MTR", repeat=k)]
+    for kind, th in (("origin", 0.3), ("origin", -2.0), ("angle", 1.0), ("angle", -2.0), ("angle", 3.5), ("angle", -4.5)):
+        for pre in (0, 1):
+            for seq in seqs:
+                execs += 1
+                st = {"A": A.copy(), "c": c.copy(), "n": n.copy(), "th": th, "B": c + rot(A - c, n, th)}
+                data = cb.Origin(c) if kind == "origin" else cb.Angle(th, n * 3.7)
+                edge = factory.create(vertex(st["A"], 0), vertex(st["B"], 1), data)
+
+                def evaluate(step):
+                    mid = np.array(edge.third_point.position)
+                    length = edge.length
+                    m = re.search(r"\n?\tarc 0 1 \(([^)]*)\)", edge.description)
+                    written = np.array([float(x) for x in m.group(1).split()])
+                    want = st["c"] + rot(st["A"] - st["c"], st["n"], st["th"] / 2)
+                    rad = float(np.linalg.norm(st["A"] - st["c"]))
+                    tol = 10 * ptol + 1e-7 * rad
+                    cc = coords(kind=kind, theta=th, pre=pre, seq="".join(seq), step=step)
+                    if np.linalg.norm(mid - want) > tol:
+                        violations.append({"clause": "history-mid-point", "coords": cc, "detail": f"after {''.join(seq[:step])}: middle point {mid.tolist()}, circle of the current end points/data gives {want.tolist()}"})
+                        return False
+                    if np.linalg.norm(written - want) > tol + 1e-8 * (1 + float(np.linalg.norm(want))):
+                        violations.append({"clause": "history-written-point", "coords": cc, "detail": f"after {''.join(seq[:step])}: written {written.tolist()}, expected {want.tolist()}"})
+                        return False
+                    if not math.isclose(length, rad * abs(st["th"]), rel_tol=1e-6):
+                        violations.append({"clause": "history-length", "coords": cc, "detail": f"after {''.join(seq[:step])}: length {length}, R*|theta| = {rad * abs(st['th'])}"})
+                        return False
+                    return True
+
+                try:
+                    if pre:
+                        evaluate(0)
+                    for k, op in enumerate(seq):
+                        if op == "M":
+                            if kind == "origin":
+                                # slide the second vertex along the circle
+                                st["th"] = st["th"] * 0.5 if abs(st["th"]) > 1 else st["th"] * 3.0
+                                st["B"] = st["c"] + rot(st["A"] - st["c"], st["n"], st["th"])
+                            else:
+                                # stretch the chord: same angle, larger circle
+                                st["B"] = st["A"] + 1.7 * (st["B"] - st["A"])
+                                st["c"] = st["A"] + 1.7 * (st["c"] - st["A"])
+                            edge.vertex_2.move_to(st["B"])
+                        elif op == "T":
+                            for key in ("A", "B", "c"):
+                                st[key] = st[key] + d_vec
+                            edge.translate(d_vec)
+                        else:
+                            for key in ("A", "B", "c"):
+                                st[key] = r_org + rot(st[key] - r_org, r_axis, r_ang)
+                            st["n"] = rot(st["n"], r_axis, r_ang)
+                            edge.rotate(r_ang, r_axis, r_org)
+                        if not evaluate(k + 1):
+                            break
+                    note(f"history:{kind}")
+                except Exception as err:
+                    violations.append({"clause": "history-raised", "coords": coords(kind=kind, theta=th, pre=pre, seq="".join(seq)), "detail": f"{type(err).__name__}: {err}"})
+                    note("history:raised")
     return {"violations": violations, "outcomes": outcomes, "execs": execs, "nontrivial_n": execs, "states": 1, "transitions": execs}
 
 
